@@ -88,8 +88,104 @@ def spaced_search():
                       label="KmerAlphabet._create_spaced_kmers")
 
 
+def continuous_search(case):
+    """guided search for the _create_continuous_kmers contract (k and alphabet size of the case)"""
+    import re
+    from replayers.common import run_search
+    KA = "sequence/align/kmeralphabet.pyx"
+    m = re.search(r"k=(\d+), alphabet of (\d+)", case)
+    k, A = int(m.group(1)), int(m.group(2))
+    ct = "uint32" if "uint32" in case else "uint8"
+    top = min(A + 3, 255) if ct == "uint8" else A + 3
+    rng = random.Random(0)
+    inputs = [[], [0] * k, [A - 1] * (k + 2), list(range(min(A, k + 3)))]
+    for _ in range(70):
+        n = rng.randint(max(0, k - 1), k + 6)
+        inputs.append([rng.randrange(A) if rng.random() < 0.95 else rng.randrange(A, top + 1) for _ in range(n)])
+
+    def expected(code):
+        if len(code) < k:
+            return "ValueError"
+        if any(c >= A for c in code):
+            return "AlphabetError"
+        return [sum(A ** (k - 1 - t) * code[q + t] for t in range(k)) for q in range(len(code) - k + 1)]
+
+    def compiled(code):
+        import numpy as np
+        import biotite.sequence as seq
+        import biotite.sequence.align as align
+        base = seq.Alphabet(list(range(A)))
+        return {"value": align.KmerAlphabet(base, k).create_kmers(np.array(code, dtype=ct)).tolist()}
+
+    def oracle(code, out):
+        exp = expected(code)
+        if out.get("outcome") == "raise":
+            return None if out.get("exception") == exp else f"raised {out.get('exception')}, expected {exp}"
+        if out.get("outcome") != "return":
+            return f"outcome {out.get('outcome')}"
+        return None if out["value"] == exp else f"k-mer codes {out['value']}, the definition gives {exp}"
+
+    def to_args(code):
+        return [{"obj": "KmerAlphabet", "attrs": {"_k": k, "_spacing": None,
+                                                  "_radix_multiplier": {"array": [A ** (k - 1 - j) for j in range(k)], "ctype": "int64", "memview": False},
+                                                  "_base_alph": {"array": [], "shape": [A], "ctype": None, "memview": False}}},      # only its length is used
+                {"array": code, "ctype": ct}]
+    return run_search(KA, KA + "::KmerAlphabet._create_continuous_kmers", inputs, to_args, oracle, compiled_call=compiled,
+                      label=f"KmerAlphabet(k={k}, {A} symbols)._create_continuous_kmers")
+
+
+def split_search(case):
+    """guided search for the _split contract (k and alphabet size of the case): every valid k-mer code near the
+    digit boundaries, through the compiled method (if in sync) and the extracted text"""
+    import re
+    from replayers.common import run_search
+    KA = "sequence/align/kmeralphabet.pyx"
+    m = re.search(r"k=(\d+), alphabet of (\d+)", case)
+    k, A = int(m.group(1)), int(m.group(2))
+    top = A ** k
+    pool = sorted({v for t in range(k + 1) for v in (A ** t - 1, A ** t, A ** t + 1, 2 * A ** t + 1) if 0 <= v < top} | {0, top - 1, top // 2, top // 3})
+    inputs = [[], pool[:1]] + [pool[i:i + 4] for i in range(0, len(pool), 3)]
+
+    def digits(v):
+        return [(v // A ** (k - 1 - t)) % A for t in range(k)]
+
+    def compiled(codes):
+        import numpy as np
+        import biotite.sequence as seq
+        import biotite.sequence.align as align
+        ka = align.KmerAlphabet(seq.Alphabet(list(range(A))), k)
+        return {"value": ka._split(np.array(codes, dtype=np.int64)).tolist()}
+
+    def oracle(codes, out):
+        if out.get("outcome") != "return":
+            return f"outcome {out.get('outcome')} {out.get('exception', '')}"
+        exp = [digits(v) for v in codes]
+        return None if [list(map(int, r)) for r in out["value"]] == exp else f"split into {out['value']}, the positional digits are {exp}"
+
+    def to_args(codes):
+        return [{"obj": "KmerAlphabet", "attrs": {"_k": k, "_spacing": None,
+                                                  "_radix_multiplier": {"array": [A ** (k - 1 - j) for j in range(k)], "ctype": "int64", "memview": False}}},
+                {"array": codes, "ctype": "int64"}]
+    return run_search(KA, KA + "::KmerAlphabet._split", inputs, to_args, oracle, compiled_call=compiled,
+                      label=f"KmerAlphabet(k={k}, {A} symbols)._split")
+
+
 def main():
     rec = json.load(open(sys.argv[1]))
+    if "KmerAlphabet._split" in rec.get("case", ""):
+        try:
+            rep, detail = split_search(rec["case"])
+        except Exception:
+            rep, detail = None, "replayer error: " + traceback.format_exc()[-700:]
+        finish(rep, detail)
+        return
+    if "_create_continuous_kmers" in rec.get("case", ""):
+        try:
+            rep, detail = continuous_search(rec["case"])
+        except Exception:
+            rep, detail = None, "replayer error: " + traceback.format_exc()[-700:]
+        finish(rep, detail)
+        return
     if "_create_spaced_kmers" in rec.get("case", ""):
         try:
             rep, detail = spaced_search()
